@@ -295,6 +295,12 @@ impl Compiler {
                 self.emit_u16(symbol.index);
             }
             Stmt::Return(expr) => {
+                if !self.symbols.in_function() {
+                    return Err(Error::SyntaxError(
+                        "foutief gebruik van 'antwoord' buiten een functie".to_string(),
+                    ));
+                }
+
                 // TODO: Allow expression to be omitted (needs work in parser first)
                 self.compile_expression(expr)?;
                 self.emit_opcode(OpCode::ReturnValue);
